@@ -176,12 +176,14 @@ async def execute(gen, ops, w: SockWorld, run: Run, counters=None):
         rec["call_seq"] = log.mark()
         rec["call_t"] = loop.time()
         log.add("API.call", name="send", serial=rec["serial"])
+        H.HDR_SINK[0] = rec
         try:
             await w.sock.send(msg, psock.RetryPolicy(max_retries=pol[0], max_lifetime=pol[1]))
         except asyncio.CancelledError:
             rec["outcome"] = "cancelled"
             raise
         except Exception as e:
+            H.HDR_SINK[0] = None
             rec["outcome"] = type(e).__name__
             rec["ret_seq"] = log.mark()
             log.add("API.raise", name="send", serial=rec["serial"], exc=repr(e))
@@ -307,3 +309,34 @@ def run_script(gen, ops, *, tail=None, open_first=True, settle=40.0, debug=False
     run.log = log
     run.status = st
     return run
+
+
+def attempts_of(gen, log, rec):
+    """Every time the first byte of rec's frame was written:
+    [dict(t, conn, seq, fault, first_on_conn, complete)].  Identity = the exact frame
+    bytes (header incl. the packet id observed at send() time + payload + CRC); a write
+    cut short by a fault matches on the bytes that were written."""
+    if "pid" not in rec or rec["data"] is None:
+        return []
+    want = R.frame(gen, rec["to"], R.ADDR_CLIENT, rec["pid"], rec["typ"], rec["data"])
+    by = frames_by_conn(gen, log)
+    out = []
+    for cid, b in sorted(by.items()):
+        for inf in b["frames"]:
+            if inf["frame"].raw == want:
+                faulted = any(w[3] for w in b["writes"] if inf["seq"] <= w[0] < inf["seq"] + 3)
+                out.append({"t": inf["t"], "conn": cid, "seq": inf["seq"], "fault": faulted,
+                            "first_on_conn": inf is b["frames"][0], "complete": True})
+        rest = b["rest"]
+        if rest and want.startswith(bytes(rest)):
+            start = len(b["raw"]) - len(rest)
+            o = 0
+            seq = t = None
+            for w in b["writes"]:
+                if o <= start < o + len(w[2]):
+                    seq, t = w[0], w[1]
+                o += len(w[2])
+            out.append({"t": t, "conn": cid, "seq": seq, "fault": True,
+                        "first_on_conn": start == 0, "complete": False})
+    out.sort(key=lambda a: a["seq"])
+    return out
